@@ -1,6 +1,7 @@
 import S3V.Base.Bytes
 import S3V.Crypto.Crc32
 import S3V.Model.EvStream
+import S3V.Model.Itoa
 import S3V.Spec.EvStream
 /-!
 Driver for component `evstream` (C15).
@@ -134,6 +135,20 @@ def failClass (it : Item) : String :=
   | .ok .cont => "evstream-cont"
   | .ok .endEv => "evstream-end"
 
+/-- the counters of an item (Stats / Progress with details) -/
+def itemCounters : Item → List Int
+  | .ok (.stats (some d)) => [d.bytesProcessed, d.bytesReturned, d.bytesScanned].filterMap id
+  | .ok (.progress (some d)) => [d.bytesProcessed, d.bytesReturned, d.bytesScanned].filterMap id
+  | _ => []
+
+/-- the literal `itoa` model (`S3V/Model/Itoa.lean`) run on every `i64` counter of the case: it must write the
+    decimal text the event-stream model frames (`C15_itoa_is_decimal` proves it does, for all `i64`); since the
+    frames of the real code are compared with the model's byte for byte, an AGREE also says the real `itoa`
+    wrote what the `itoa` model writes -/
+def itoaDiff (items : List Item) : Option Int :=
+  (items.flatMap itemCounters).find? fun v =>
+    -9223372036854775808 ≤ v && v < 9223372036854775808 && Itoa.write v != fmtLong v
+
 def toCounters (d : Details) : EvStreamSpec.Counters := ⟨d.bytesScanned, d.bytesProcessed, d.bytesReturned⟩
 
 /-- does the event read by the independent decoder say what the backend item said? -/
@@ -209,6 +224,8 @@ def judge (fs : List String) : String :=
         | none =>
           if term ≠ "end" then disagree id "end" term
           else if te ≠ "chunked" then disagree id "te=chunked" s!"te={te}"
+          else if let some v := itoaDiff items then
+            disagree id s!"itoa-model({v})={hexEncode (Itoa.write v)}" s!"decimal={hexEncode (fmtLong v)}"
           else agree id (agreeClass items)
     | _, _ => badline id
   | [_comp, id, itemsS, "|", "PANIC"] =>
